@@ -7,6 +7,8 @@ what `Group.extract_bbox` computes from the current tree (an artboard caches its
 (the repaired code); `legacy_…` are the machine-checked counterexamples of the snapshot.
 -/
 import PsdVerif.Lemmas.TreeFreshStep
+import PsdVerif.Lemmas.FreshTable
+import PsdVerif.Generated.FreshTable
 
 namespace PsdVerif.C14
 open PsdVerif PsdVerif.TreeSt
@@ -217,5 +219,202 @@ theorem detached_stale_parent_witness :
     let s := runState .current nested [.newGroup none, .moveToGroup 1 4, .clear 1, .observe (.bbox 2), .append 0 4]
     s.cache 2 = some BBox.zero ∧ (extractBbox s 2).toOption = some ⟨1, 1, 3, 3⟩ ∧ (∀ c, c < s.next → 2 ∉ s.children c) := by
   decide
+
+/-! ## The invalidation structure, tied to the source
+
+`fresh_step` … `emptied_group_never_stale` above are about `TreeSt.step`, a hand-written transcription of the
+mutators. Below, the mutators are NOT hand-modelled: the machine of `Model/FreshState.lean` interprets the table
+`Generated/FreshTable.lean`, regenerated from the AST of `api/*.py` on every run — per public mutator and
+straight-line segment, which input of which objects it mutates, which `_invalidate_bbox()` calls and `_bbox = None`
+sweeps it makes on which objects, under which tests. A mutation changes the named input of the named objects
+adversarially; an invalidation clears exactly the set the table says. -/
+
+section Table
+open PsdVerif.FreshState
+
+/-- What the machine assumes about `_invalidate_bbox` is what the source says now: the climb visits the object and
+every `GroupMixin` parent up to the document, clears each `_bbox` on the way and has no early exit; the document's
+own method clears its own box. (`Table.climb` is derived from these two bodies by the extractor.) -/
+theorem invalidate_tied :
+    Generated.FreshTable.layerInvalidateSrc =
+      "node: Any = self\nseen: set[int] = set()\nwhile node is not None and id(node) not in seen:\n    seen.add(id(node))\n    if isinstance(node, (GroupMixin, ShapeLayer)):\n        node._bbox = None\n    node = node.parent if isinstance(node.parent, GroupMixin) else None" ∧
+    Generated.FreshTable.docInvalidateSrc = "self._bbox = None" ∧
+    Generated.FreshTable.table.climb = .toRoot :=
+  ⟨rfl, rfl, rfl⟩
+
+/-- KEPT FRESH. If the table says that the climb goes to the root and that in every segment of every public mutator
+each raw mutation of an input of a box sits in a covered block — members leaving / a new list / a visibility flag / a
+rectangle, with the invalidation of the object and its ancestors (and, where visibility is inherited, of everything
+below) in the same segment under no further test (`tableOk`) — then after ANY history of mutator segments — any
+objects named, any outcome of the tests, any new value of the mutated inputs within C09's side conditions
+(`GuardedHist`: what leaves was a member, what arrives is detached and does not contain the container, no
+repetition, recursion limit not hit) — every cached box of a container that is in a document equals what
+`Group.extract_bbox` computes from the current tree. -/
+theorem kept_fresh (t : Table) (ht : tableOk t = true) (s : State) (i : Inv s) (f : Fresh s) (h : List SegInst)
+    (hg : GuardedHist t s h) : Fresh (runSegments t s h) :=
+  (runSegments_good t ht h s ⟨i, f⟩ hg).fresh
+
+/-- … and the tree stays well formed, so the theorem applies again after any read (`observe_keeps_fresh`). -/
+theorem kept_wellformed (t : Table) (ht : tableOk t = true) (s : State) (i : Inv s) (f : Fresh s) (h : List SegInst)
+    (hg : GuardedHist t s h) : Inv (runSegments t s h) :=
+  (runSegments_good t ht h s ⟨i, f⟩ hg).inv
+
+/-- The table regenerated from the source satisfies the hypothesis. -/
+theorem current_tree_kept_fresh : tableOk Generated.FreshTable.table = true := by decide
+
+/-- Hence, for the code as it is. -/
+theorem kept_fresh_now (s : State) (i : Inv s) (f : Fresh s) (h : List SegInst)
+    (hg : GuardedHist Generated.FreshTable.table s h) : Fresh (runSegments Generated.FreshTable.table s h) :=
+  kept_fresh _ current_tree_kept_fresh s i f h hg
+
+/-- … and the box answered afterwards for any layer that is in a document is the one computed from the tree alone. -/
+theorem answers_fresh_now (s : State) (i : Inv s) (f : Fresh s) (h : List SegInst)
+    (hg : GuardedHist Generated.FreshTable.table s h) (x : Id)
+    (ha : Attached (runSegments Generated.FreshTable.table s h) x) :
+    (obsBbox (runSegments Generated.FreshTable.table s h) x).2 = bboxAnswer (runSegments Generated.FreshTable.table s h) x := by
+  by_cases hc : (runSegments Generated.FreshTable.table s h).cont x = true
+  · exact obsBbox_answer x (kept_fresh_now s i f h hg x ha hc)
+  · unfold obsBbox bboxAnswer
+    simp [hc]
+
+/-! ### The hypothesis is necessary -/
+
+/-- document 0 lists [1]; group 1 lists [2]; group 2 lists [3]; 3 a pixel layer at (1,1,3,3); every box read -/
+def allRead : State := runState .current nested [.observe (.bbox 2), .observe (.bbox 1), .observe (.bbox 0)]
+
+/-- what an edit may leave behind: group 2 emptied and hidden, layer 3 moved (a mutation copies from here only the
+input it names, of the object it names) -/
+def edited : State :=
+  { allRead with children := upd allRead.children 2 [], visible := upd allRead.visible 2 false,
+                 box := upd allRead.box 3 ⟨4, 4, 6, 6⟩ }
+
+/-- is some cached box of these containers not what `extract_bbox` gives now? -/
+def staleAmong (s : State) (gs : List Id) : Bool :=
+  gs.any fun g => match s.cache g with
+    | some b => (extractBbox s g).toOption != some b
+    | none => false
+
+/-- the node a row is tried on: the pixel layer for a rectangle, group 2 otherwise -/
+def tryOn (t : Table) (name : String) : Id :=
+  match t.rows.find? (fun r => r.name == name) with
+  | some r => if r.firstInput == some .rect then 3 else 2
+  | none => 2
+
+/-- Each mutator's invalidations are needed: for every row of the regenerated table, the same call (every owner
+expression naming group 2 — the pixel layer for the rectangle setters —, all tests true) from the tree with every box
+read leaves no stale box with the table as it is, and a stale one with that row's `_invalidate_bbox()` calls and
+`_bbox = None` sweeps removed. -/
+theorem every_invalidation_needed :
+    ∀ name ∈ Generated.FreshTable.table.rows.map (·.name),
+      staleAmong (runSegments Generated.FreshTable.table allRead
+        (callHist Generated.FreshTable.table name (tryOn Generated.FreshTable.table name) edited)) [0, 1, 2] = false ∧
+      staleAmong (runSegments (dropInval Generated.FreshTable.table name) allRead
+        (callHist (dropInval Generated.FreshTable.table name) name (tryOn Generated.FreshTable.table name) edited)) [0, 1, 2] = true := by
+  decide
+
+/-- A climb that gives up at the first empty cache does not do (`if node._bbox is None: break`): the box of group 2
+was never read, those of group 1 and of the document were; the last layer of group 2 is removed. -/
+theorem climb_stopping_at_empty_goes_stale :
+    let t : Table := { Generated.FreshTable.table with climb := .stopAtEmpty }
+    let s0 := runState .current nested [.observe (.bbox 1), .observe (.bbox 0)]
+    tableOk t = false ∧ s0.cache 2 = none ∧
+    staleAmong (runSegments t s0 (callHist t "GroupMixin.remove" 2 edited)) [0, 1, 2] = true ∧
+    staleAmong (runSegments Generated.FreshTable.table s0 (callHist Generated.FreshTable.table "GroupMixin.remove" 2 edited)) [0, 1, 2] = false := by
+  decide
+
+/-- a climb that stops below the document (the snapshot) does not do either -/
+theorem climb_below_document_goes_stale :
+    let t : Table := { Generated.FreshTable.table with climb := .belowDoc }
+    tableOk t = false ∧
+    staleAmong (runSegments t allRead (callHist t "GroupMixin.remove" 2 edited)) [0, 1, 2] = true := by
+  decide
+
+/-- document 0 ∋ group 1 ∋ group 2 ∋ group 3 ∋ pixel layer 4 at (1,1,3,3): nesting depth three below the document -/
+def nested3 : State :=
+  runState .current (State.empty 50)
+    [.newDoc ⟨0, 0, 8, 8⟩, .newGroup (some 0), .newGroup (some 1), .newGroup (some 2), .newLayer (some 0) ⟨1, 1, 3, 3⟩,
+     .append 3 4]
+
+/-- Resetting the DIRECT children only does not do (`for layer in self` instead of `self.descendants()` in the
+`visible` setter): the box of group 3 is read, then group 1 — two levels above it — is hidden. Group 2 is reset,
+group 3 keeps `(1,1,3,3)` although nothing in it is visible any more. Needs nesting depth three. -/
+theorem children_only_reset_goes_stale :
+    let t : Table := { Generated.FreshTable.table with rows :=
+      [⟨"Layer.visible.setter", [[.inval "self" [], .reset "self" .children [], .mutate "self" .self .visible "visible=?" []]]⟩] }
+    let s0 := runState .current nested3 [.observe (.bbox 3), .observe (.bbox 2)]
+    let new : State := { s0 with visible := upd s0.visible 1 false }
+    tableOk t = false ∧
+    staleAmong (runSegments t s0 (callHist t "Layer.visible.setter" 1 new)) [0, 1, 2, 3] = true ∧
+    (runSegments t s0 (callHist t "Layer.visible.setter" 1 new)).cache 2 = none ∧
+    staleAmong (runSegments Generated.FreshTable.table s0 (callHist Generated.FreshTable.table "Layer.visible.setter" 1 new)) [0, 1, 2, 3] = false := by
+  decide
+
+/-- Invalidating on the TARGET side only of a move does not do (`move_to_group` detaching with a raw
+`_layers.remove`): group 2 moves from group 1 to a second group 4 of the document; the box of group 1 was read. -/
+theorem target_side_only_move_goes_stale :
+    let t : Table := { Generated.FreshTable.table with rows :=
+      [⟨"Layer.move_to_group", [[.mutate "self.parent" .self .shrink "_layers.remove" [],
+        .mutate "group" .self .relist "_layers.extend" [], .mutate "group" .descendants .psd "psd=group" [],
+        .reset "group" .descendants [], .mutate "group" .children .parent "parent=group" [], .dirty "group" [],
+        .inval "group" []]]⟩] }
+    let s0 := runState .current nested [.newGroup (some 0), .observe (.bbox 1), .observe (.bbox 0)]
+    let new : State := { s0 with children := upd (upd s0.children 1 []) 4 [2] }
+    let si := callInst "Layer.move_to_group" 0 [("self.parent", 1), ("group", 4)] [] [] 0 new
+    tableOk t = false ∧
+    staleAmong (runSegments t s0 [si]) [0, 1, 2, 4] = true ∧
+    staleAmong (runSegments Generated.FreshTable.table s0 [si]) [0, 1, 2, 4] = false := by
+  decide
+
+/-- An invalidation under a test the mutation is not under does not do. -/
+theorem conditional_invalidation_rejected :
+    covered [.mutate "self" .self .shrink "_layers.remove" [], .dirty "self" [], .inval "self" ["g1:self._bbox is not None"]] = false := by
+  decide
+
+/-- Filling or clearing the stored flags by hand is outside what the table can vouch for (a memoised box assigned
+outside the `bbox` getter; `_updated_layers = False`). -/
+theorem direct_store_rejected :
+    covered [.store "self" "_bbox = (0, 0, 0, 0)" []] = false ∧
+    covered [.store "self" "_updated_layers = False" []] = false := by
+  decide
+
+/-- a read of a box between the invalidation and the mutation it is meant to cover may re-fill the cache: only the
+read of a plain layer's own extent in its `left` / `top` setters is accepted (groups have no such setter) -/
+theorem read_between_rejected :
+    covered [.inval "self" [], .reset "self" .descendants [], .read "self" "bbox" [], .mutate "self" .self .visible "visible=?" []] = false := by
+  decide
+
+/-! ### Non-vacuity -/
+
+theorem nested_good : Good nested := by
+  have g4 : Good (runState .current (State.empty 50)
+      [.newDoc ⟨0, 0, 8, 8⟩, .newGroup (some 0), .newGroup (some 1), .newLayer (some 0) ⟨1, 1, 3, 3⟩]) :=
+    good_run _ _ ⟨inv_empty 50, fresh_init 50⟩
+      ⟨trivial, by decide, trivial, by decide, trivial, by decide, trivial, by decide, trivial⟩
+  exact good_step _ (.append 2 3) g4 (detached_of_bounded g4.inv (by decide)) (by decide)
+
+/-- the hypotheses of `kept_fresh` hold of the state the witnesses start from … -/
+theorem allRead_good : Inv allRead ∧ Fresh allRead := by
+  have := good_run nested [.observe (.bbox 2), .observe (.bbox 1), .observe (.bbox 0)] nested_good
+    ⟨trivial, by decide, trivial, by decide, trivial, by decide, trivial⟩
+  exact ⟨this.inv, this.fresh⟩
+
+/-- a literal two-row table of the covered shapes (independent of the regenerated one) -/
+def tinyTable : Table :=
+  ⟨.toRoot, [⟨"GroupMixin.remove", [[.mutate "self" .self .shrink "_layers.remove" [], .dirty "self" [], .inval "self" []]]⟩,
+             ⟨"Layer.visible.setter", [[.inval "self" [], .reset "self" .descendants [], .mutate "self" .self .visible "visible=?" []]]⟩]⟩
+
+-- … and the side conditions on the raw mutations (`GuardedHist`) are satisfiable: emptying group 2, hiding group 1
+example : tableOk tinyTable = true ∧
+    GuardedHist tinyTable allRead [callInst "GroupMixin.remove" 0 [] [] [] 2 edited] ∧
+    GuardedHist tinyTable allRead [callInst "Layer.visible.setter" 0 [] [] [] 1 edited] :=
+  ⟨by decide,
+   ⟨⟨fun _ => ⟨by decide, by decide, by decide⟩, trivial, trivial, trivial⟩, trivial⟩,
+   ⟨⟨trivial, trivial, fun _ => ⟨by decide, [2, 3], by decide⟩, trivial⟩, trivial⟩⟩
+
+-- the state the witnesses start from has every cache filled
+example : allRead.cache 2 = some ⟨1, 1, 3, 3⟩ ∧ allRead.cache 1 = some ⟨1, 1, 3, 3⟩ ∧ allRead.cache 0 = some ⟨1, 1, 3, 3⟩ := by
+  decide
+
+end Table
 
 end PsdVerif.C14
